@@ -155,6 +155,19 @@ def shard(ctx):
                               {"input": hcmds[i]["html"][:2000], "first": second[i]["html"][:2000], "second": r2["ok"]["out"][:2000],
                                "first_reparsed": rp["ok"]["reser"][:2000]},
                               {"ops": [hcmds[i], second[i]]})
+        # pinned witness of the recorded finding (known_findings.json): content hoisted out of a removed
+        # <template> directly into <table> re-parses with an implied tbody / tr, two levels deeper, and
+        # at the depth limit the second pass then removes what the first pass kept
+        if ctx.shard == 0 and layer == "rel":
+            inner = "<table><template><td><div><span>x</span></div></td></template></table>"
+            doc = "<div>" * 95 + inner + "</div>" * 95
+            cmd = {"op": "sanitize", "html": doc, "config": {"mode": "strict"}, "no_trees": True}
+            r = w.call(cmd)
+            rep.judged()
+            if not handle_crash(rep, r, cmd, context="pinned") and r["ok"]["twice"] != r["ok"]["reser"]:
+                rep.violation("second_pass_changes_output", "pinned-template-in-table-at-depth-limit",
+                              {"input": "95 x <div> + " + inner, "first": r["ok"]["out"][470:620], "reparsed": r["ok"]["reser"][470:640],
+                               "second": r["ok"]["twice"][470:640]}, cmd)
         # preservation of clean documents
         for i in range(0, len(clean), B):
             chunk = clean[i:i + B]
